@@ -51,6 +51,25 @@ Theorem C21_reader_partial (t : tables) (h : list op) (o : nat) (e e' : bool) (j
 Proof. exact (reader_point t h o e e' j). Qed.
 Print Assumptions C21_reader_partial.
 
+(* two callers on one folder that BOTH finish load_model on the same reachable state (e.g. the same
+   unfinished cache file) before either runs its handler / compile / save, the later steps interleaved
+   in any order of whole steps (lastb = whose save comes last), any two option sets: both return the
+   correct model.  _partial: byte-level interleaving of the two saves is not modelled. *)
+Theorem C21_two_callers_partial (t : tables) (h : list op) (oa ob : nat) (ea eb lastb : bool) :
+  routes_ok t = true ->
+  let w := world_after t w0 h in
+  exists ra rb, snd (step_op t w (Two oa ob ea eb lastb)) = [ra; rb] /\ good w oa ra /\ good w ob rb.
+Proof. exact (two_point t h oa ob ea eb lastb). Qed.
+Print Assumptions C21_two_callers_partial.
+
+(* a writer at any write step j and two such readers (same options) *)
+Theorem C21_writer_two_readers_partial (t : tables) (h : list op) (o : nat) (e ea eb : bool) (j : nat) :
+  routes_ok t = true ->
+  let w := world_after t w0 h in
+  Forall (good w o) (snd (step_op t w (Reader2 o e ea eb j))).
+Proof. exact (reader2_point t h o e ea eb j). Qed.
+Print Assumptions C21_writer_two_readers_partial.
+
 (* the repaired code's table satisfies the side condition ... *)
 Example C21_fixed_routes : routes_ok tbl_fixed = true.
 Proof. vm_compute. reflexivity. Qed.
